@@ -131,6 +131,7 @@ func qopt(ok bool, v string) string {
 }
 
 const shardSize = 2000
+const shardBytes = 1500000
 
 func (c *ctx) finish() {
 	os.MkdirAll(c.out, 0o755)
@@ -139,10 +140,13 @@ func (c *ctx) finish() {
 	for _, f := range old {
 		os.Remove(f)
 	}
-	for s := 0; s*shardSize < len(c.casesBuf) || s == 0; s++ {
-		lo, hi := s*shardSize, (s+1)*shardSize
-		if hi > len(c.casesBuf) {
-			hi = len(c.casesBuf)
+	// shards: at most shardSize cases and about shardBytes of term text each (a bigger file costs coqc minutes and
+	// gigabytes; three shards are evaluated at a time)
+	for s, lo := 0, 0; lo < len(c.casesBuf) || s == 0; s++ {
+		hi, size := lo, 0
+		for hi < len(c.casesBuf) && hi-lo < shardSize && (size < shardBytes || hi == lo) {
+			size += len(c.casesBuf[hi])
+			hi++
 		}
 		var b strings.Builder
 		fmt.Fprintf(&b, "From Coq Require Import String.\nFrom Coq Require Import List NArith ZArith.\nFrom PK.Base Require Import Bytes.\nFrom PK.Corr Require Import %s.\nImport ListNotations.\nLocal Open Scope N_scope.\nLocal Open Scope string_scope.\n", c.corr)
@@ -164,6 +168,7 @@ func (c *ctx) finish() {
 		name := fmt.Sprintf("cases_%d.v", s)
 		os.WriteFile(filepath.Join(c.out, name), []byte(b.String()), 0o644)
 		c.rep.CaseFiles = append(c.rep.CaseFiles, name)
+		lo = hi
 		if hi >= len(c.casesBuf) {
 			break
 		}
